@@ -253,6 +253,7 @@ type reqMeta struct {
 	Val     value
 	Absent  bool
 	Below80 bool // a canonical value that fails gte=80
+	Decoy   bool // the same wire name is also carried, with another value, in the locations the parameter is NOT declared in
 }
 
 func validHeaderValue(s string) bool {
@@ -323,6 +324,7 @@ func makeReqsFor(inf map[string]caseInfo, metas map[string]reqMeta) func(scen.Ca
 		var out []rt.Request
 		n := 0
 		var mkEnc func(v value, absent bool, overEncode bool)
+		decoy := ""
 		mk := func(v value, absent bool) {
 			mkEnc(v, absent, false)
 			// a second, non-canonical but valid client encoding of the same value: the first byte percent-encoded even
@@ -371,7 +373,23 @@ func makeReqsFor(inf map[string]caseInfo, metas map[string]reqMeta) func(scen.Ca
 				rq.ContentType = "application/json"
 				rq.Body = v.Raw
 			}
-			m := reqMeta{Val: v, Absent: absent}
+			if decoy != "" {
+				// the declared location is the only one that counts: the same name elsewhere must be ignored
+				sep := "?"
+				if strings.Contains(rq.URL, "?") {
+					sep = "&"
+				}
+				if ci.Loc != "Query" {
+					rq.URL += sep + url.QueryEscape(wire) + "=" + url.QueryEscape(decoy)
+				}
+				if ci.Loc != "Header" {
+					if rq.Headers == nil {
+						rq.Headers = map[string]string{}
+					}
+					rq.Headers[wire] = decoy
+				}
+			}
+			m := reqMeta{Val: v, Absent: absent, Decoy: decoy != ""}
 			if ci.Validate == "gte=80" && v.Class == "exact" {
 				if f, err := strconv.ParseFloat(v.Raw, 64); err == nil && f < 80 {
 					m.Below80 = true
@@ -408,6 +426,24 @@ func makeReqsFor(inf map[string]caseInfo, metas map[string]reqMeta) func(scen.Ca
 			mk(value{"79", "exact", "79"}, false)
 		}
 		mk(value{}, true)
+		// the same requests once more with decoys: the absent request and the first canonical value, while another
+		// canonical value travels under the same wire name in every other location
+		var exact []value
+		for _, v := range ci.K.Vals() {
+			if v.Class == "exact" && validHeaderValue(v.Raw) && v.Raw == strings.TrimSpace(v.Raw) && v.Raw != "" {
+				exact = append(exact, v)
+			}
+		}
+		if len(exact) >= 2 {
+			if ci.Validate == "gte=80" {
+				exact = []value{{"81", "exact", "81"}, {"99", "exact", "99"}}
+			}
+			decoy = exact[1].Raw
+			mkEnc(exact[0], false, false)
+			decoy = exact[0].Raw
+			mkEnc(value{}, true, false)
+			decoy = ""
+		}
 		return out
 	}
 }
@@ -482,6 +518,9 @@ func Main(tier, replay string) {
 					class = "odd" // validateTopLevelOnlyEnum refuses values outside the declared constants
 				}
 				feat := map[string]string{"engine": e, "value-class": class}
+				if m.Decoy {
+					feat["decoy-in-other-locations"] = "true"
+				}
 				if fl := flagOf[cri]; fl != (rt.Flags{}) {
 					feat["flags"] = fmt.Sprintf("%+v", fl)
 				}
@@ -564,7 +603,7 @@ func Main(tier, replay string) {
 	run.Outcome("canonical", int64(bound))
 	run.Outcome("expected-422", int64(rejected))
 	run.Sample(map[string]any{"scenario": cases[len(cases)/2].Desc, "values": kinds()[1].Vals()[:6]})
-	run.Bound = fmt.Sprintf("%d binding scenarios: 17 parameter kinds x {path, query, header, form} x pointer x wire alias x validator (numeric: gte=80), JSON bodies (struct, []struct, pointer); per parameter the kind's value alphabet (boundary values that must bind exactly, values that must be refused, odd syntaxes) plus the absent request; x 5 engines x {all generator switches off, validateResponsePayload + validateTopLevelOnlyEnum + generateEnumValidator on}", len(cases))
+	run.Bound = fmt.Sprintf("%d binding scenarios: 17 parameter kinds x {path, query, header, form} x pointer x wire alias x validator (numeric: gte=80), JSON bodies (struct, []struct, pointer); per parameter the kind's value alphabet (boundary values that must bind exactly, values that must be refused, odd syntaxes) plus the absent request, and the absent request and one canonical value again with a decoy value under the same wire name in every other location; x 5 engines x {all generator switches off, validateResponsePayload + validateTopLevelOnlyEnum + generateEnumValidator on}", len(cases))
 	run.Rule = "state = (scenario, request value, engine); transition = one HTTP request served in-process by a compiled generated router with an echoing controller; validated = executions whose recorded arguments and status were compared with the binding reference model"
 	run.Assumptions = []string{"odd syntaxes ('+5', ' 5', '0x10', full-width digits, NaN, empty strings, values containing '/') are only required not to bind a silently wrong value", "value alphabets are boundary/representative, not all representable values"}
 	os.RemoveAll(scratch)
